@@ -15,6 +15,8 @@ def main():
     ap.add_argument("--seed", type=int, default=1)
     ap.add_argument("--index", type=int, default=0)
     ap.add_argument("--nworkers", type=int, default=1)
+    ap.add_argument("--gindex", type=int, default=None)
+    ap.add_argument("--gsize", type=int, default=None)
     ap.add_argument("--out", required=True)
     ap.add_argument("--replay", default=None)
     ap.add_argument("--known", default=None)
@@ -24,6 +26,9 @@ def main():
     from vf.core import Ctx, HarnessError, Violation
 
     ctx = Ctx(a.prop, a.tier, a.seed, a.index, a.nworkers)
+    ctx.f32 = shim.F32
+    ctx.gindex = a.index if a.gindex is None else a.gindex
+    ctx.gsize = a.nworkers if a.gsize is None else a.gsize
     res = {"ok": False}
     try:
         mod = importlib.import_module(f"vf.props.{a.prop.lower()}")
